@@ -725,6 +725,7 @@ def c02(tapes, params):
     w = EnipWorld(tapes, dict(params, short_reads=True))
     g, sch = w.gen, w.sch
     w.gen_tags(ntags=g.between(2, 4, 'ntags'), maxlen=params.get('maxlen', 24), types=FIXED_TYPES + ['SSTRING'])
+    w.net.reuse_ports = lambda: sch.chance(1, 2, 'reuseport')
     w.start_server()
     unique = {'n': 0}
     mode = g.weighted([(1, 'seg'), (1, 'cut')], 'mode')         # always drawn, so that explicit parameters
